@@ -322,6 +322,26 @@ def judge_abandoned(out, entries, res, domain, workname, what=('ok', 'msgs'), pe
             bad.append('verdict')
         if 'msgs' in what and spec_msgs != real_msgs:
             bad.append('messages')
+        if ('tree' in what or 'positions' in what) and v['status'] == 'acc' and t['ok'] and t.get('tree') is not None:
+            # the result tree by structure (rule / term, lexeme slice) and, for 'positions', the source points of its leaves
+            pos = 'positions' in what
+
+            def spec_tree(i):
+                if i < 0:
+                    return None
+                n = v['nodes'][i]
+                if n['k'] == 0:
+                    return ('t', n['sym'], n['off'], n['len']) + ((n['line'], n['col']) if pos else ())
+                return ('r', n['k'], n['sym'], tuple(spec_tree(c) for c in n['ch']))
+
+            def real_tree(x):
+                if x is None:
+                    return None
+                if x[1] == 0:
+                    return ('t', x[2], x[3], x[4]) + ((x[5], x[6]) if pos else ())
+                return ('r', x[1], x[2], tuple(real_tree(c) for c in x[7]))
+            if spec_tree(v['root']) != real_tree(t['tree']):
+                bad.append('result tree' + (' / source points' if pos else ''))
         if bad:
             per[e.g.name] += 1
             if per[e.g.name] <= per_grammar:
@@ -542,6 +562,8 @@ def check_C10(tier, seed):
     res, work = prun.run(entries, 'C10', design_L=None, do_product=False, tlc_procs=4 if tier == 'quick' else 8, tlc_workers=4 if tier == 'quick' else 2)
     domain = {e.gid for e in entries}
     judge_traces(out, entries, res, {'position'}, domain)
+    # traces abandoned at a table difference: positions in the messages and of the result's leaves against the specification's outcome
+    judge_abandoned(out, entries, res, domain, 'C10ab', what=('msgs', 'positions'))
     out.coverage = base_coverage(res, {
         'grammars': len(entries), 'positions_compared': res.event_kinds.get('line', 0) + res.event_kinds.get('call', 0),
         'option_combinations': 4, 'bounds': {'L_all_inputs_over_terms_and_SP_LF_TAB_CR': L},
